@@ -231,11 +231,29 @@ var c35Decls = []string{
 	"message Bb { }",
 }
 
+// pseudo-declarations: the file's package is the full name of a (possibly duplicated) nested message of the others, so
+// that name is interned as a package before - or after - it is interned as a message
+const (
+	c35PkgNested = 100 // package pkgone.Mmmmmmmm.Nnnnnnnn
+	c35PkgOuter  = 101 // package pkgone.Mmmmmmmm
+)
+
 func c35LinkText(decls []int) string {
 	var sb strings.Builder
-	sb.WriteString("syntax = \"proto3\";\npackage pkgone;\n")
+	pkg := "pkgone"
 	for _, d := range decls {
-		sb.WriteString(c35Decls[d] + "\n")
+		switch d {
+		case c35PkgNested:
+			pkg = "pkgone.Mmmmmmmm.Nnnnnnnn"
+		case c35PkgOuter:
+			pkg = "pkgone.Mmmmmmmm"
+		}
+	}
+	sb.WriteString("syntax = \"proto3\";\npackage " + pkg + ";\n")
+	for _, d := range decls {
+		if d < len(c35Decls) {
+			sb.WriteString(c35Decls[d] + "\n")
+		}
 	}
 	return sb.String()
 }
@@ -261,7 +279,7 @@ func c35LinkRun(s *expSession, ws source.Workspace) (string, error) {
 
 func TestC35_LinkDuplicates(t *testing.T) {
 	ev.Run(t, ev.Spec[c35LinkCase]{ID: "C35", Name: "LinkDuplicates", Quick: 150, Thorough: 6000,
-		Rule: "2-4 files of ONE package whose contents are drawn from seven declarations (messages with nested messages and enums, an enum, a service; names longer than five characters, which go through the intern table, and one short name), so that several files declare the same names; a history of 1-5 steps each rewrites 1-2 files to another selection, evicts their queries.File keys (EvictWithCleanup) and runs queries.Link over the whole workspace on the long-lived executor+session and on a brand-new one; oracle: the two reports render identically (the duplicate-symbol diagnostics of Link included); non-trivial = some name is declared by two files after the last step and the history has >= 2 steps",
+		Rule: "2-4 files of one package (15% of the file versions instead use the full name of the others' message or nested message as THEIR package, so that name is interned as a package before or after it is interned as a message) whose contents are drawn from seven declarations (messages with nested messages and enums, an enum, a service; names longer than five characters, which go through the intern table, and one short name), so that several files declare the same names; a history of 1-5 steps each rewrites 1-2 files to another selection, evicts their queries.File keys (EvictWithCleanup) and runs queries.Link over the whole workspace on the long-lived executor+session and on a brand-new one; oracle: the two reports render identically (the duplicate-symbol diagnostics of Link included); non-trivial = some name is declared by two files after the last step and the history has >= 2 steps",
 		Gen: func(t *rapid.T) c35LinkCase {
 			c := c35LinkCase{NFiles: 2 + gen.Uniform(t, 3, "nfiles"), Par: gen.Pick(t, []int{1, 2, 4}, "par")}
 			pickDecls := func() []int {
@@ -276,7 +294,11 @@ func TestC35_LinkDuplicates(t *testing.T) {
 						hasM = hasM || d == 1 || d == 2
 					}
 				}
-				return rapid.Permutation(out).Draw(t, "declorder")
+				out = rapid.Permutation(out).Draw(t, "declorder")
+				if gen.Pct(t, 15, "nested-package") {
+					out = append(out, gen.Pick(t, []int{c35PkgNested, c35PkgNested, c35PkgOuter}, "pkg"))
+				}
+				return out
 			}
 			first := make([][]int, c.NFiles)
 			for f := range first {
@@ -336,6 +358,9 @@ func TestC35_LinkDuplicates(t *testing.T) {
 				}
 				seen := map[int]int{}
 				for f := range state {
+					if n := len(state[f]); n > 0 && state[f][n-1] >= 100 {
+						continue // another package
+					}
 					for _, d := range state[f] {
 						k := d
 						if k == 2 {
